@@ -284,6 +284,39 @@ def rule_R3(chk, repo, eng):
     chk.floor(rid, 7, 7)
 
 
+def _tuple_loop_versions(fn):
+    """`for (a, b, ..) in ((x1, y1, ..), (x2, y2, ..)): body` over a literal tuple of tuples: one copy of the function
+    per element with the loop replaced by its body under that binding (other loops untouched)"""
+    import copy
+    for l in ast.walk(fn):
+        if isinstance(l, ast.For) and isinstance(l.target, ast.Tuple) and isinstance(l.iter, (ast.Tuple, ast.List)) and \
+                l.iter.elts and all(isinstance(e, (ast.Tuple, ast.List)) and len(e.elts) == len(l.target.elts)
+                                    for e in l.iter.elts) and all(isinstance(t, ast.Name) for t in l.target.elts):
+            out = []
+            for k in range(len(l.iter.elts)):
+                f2 = copy.deepcopy(fn)
+                l2 = [x for x in ast.walk(f2) if isinstance(x, ast.For) and x.lineno == l.lineno and
+                      x.col_offset == l.col_offset and norm(x.iter) == norm(l.iter)][0]
+                bind = {t.id: e for t, e in zip(l2.target.elts, l2.iter.elts[k].elts)}
+
+                class Sub(ast.NodeTransformer):
+                    def visit_Name(self, node):
+                        if isinstance(node.ctx, ast.Load) and node.id in bind:
+                            return copy.deepcopy(bind[node.id])
+                        return node
+                body = [Sub().visit(b) for b in l2.body]
+                for parent in ast.walk(f2):
+                    for fld in ('body', 'orelse', 'finalbody'):
+                        lst = getattr(parent, fld, None)
+                        if isinstance(lst, list) and l2 in lst:
+                            j = lst.index(l2)
+                            lst[j:j + 1] = body
+                ast.fix_missing_locations(f2)
+                out += _tuple_loop_versions(f2)
+            return out
+    return [fn]
+
+
 def rule_R4(chk, repo, eng):
     rid = 'C16.R4'
     chk.rule(rid, 'OpGraph.add never writes `other` (the deep copy dominates every rename) and takes fresh node and '
@@ -295,20 +328,45 @@ def rule_R4(chk, repo, eng):
     chk.ob(rid, where(repo, fi, fi.node), 'add may write only self', not bad,
            '; '.join(f'{d} at {s}' for d, s in bad[:3]), key=f'{rid}|writes-other')
     n = 1
-    for var, table in (('next_nid', 'nodes'), ('next_eid', 'edges')):
-        node = None
-        for s in ast.walk(fi.node):
-            if isinstance(s, ast.Assign) and len(s.targets) == 1 and norm(s.targets[0]) == var:
-                node = s
-        if node is None:
-            # tolerate renaming: find the allocator feeding rename_*_id
-            continue
-        txt = norm(node.value)
-        ok = f'self.{table}.keys()' in txt and f'other.{table}.keys()' in txt and txt.startswith('max(') and \
-            txt.rstrip().endswith('+ 1')
-        chk.ob(rid, where(repo, fi, node), f'new {table[:-1]} ids are taken above the maximum of both graphs', ok,
+    # fresh ids: the second argument of every rename call (other than the identification of the terminals) is followed
+    # through the local definitions to the max(...) + 1 it starts from; that maximum must range over both graphs.
+    # A loop over a literal tuple of tuples (one body for the node table and the edge table) is analysed per binding.
+    seen = {}
+    for ver in _tuple_loop_versions(fi.node):
+        defs = {}
+        for s_ in ast.walk(ver):
+            if isinstance(s_, ast.Assign) and len(s_.targets) == 1 and isinstance(s_.targets[0], ast.Name):
+                defs.setdefault(s_.targets[0].id, []).append(s_.value)
+        for c in ast.walk(ver):
+            if not (isinstance(c, ast.Call) and isinstance(c.func, ast.Attribute) and
+                    c.func.attr in ('rename_node_id', 'rename_edge_id') and len(c.args) == 2):
+                continue
+            if 'nid_terminal' in norm(c.args[1]):
+                continue
+            src = c.args[1]
+            if isinstance(src, ast.Name) and len(defs.get(src.id, [])) == 1 and 'nid_terminal' in norm(defs[src.id][0]):
+                continue
+            table = 'nodes' if c.func.attr == 'rename_node_id' else 'edges'
+            todo, done, maxes = [c.args[1]], set(), []
+            while todo:
+                e = todo.pop()
+                for x in ast.walk(e):
+                    if isinstance(x, ast.BinOp) and isinstance(x.op, ast.Add) and isinstance(x.left, ast.Call) and \
+                            norm(x.left.func) == 'max' and isinstance(x.right, ast.Constant) and x.right.value == 1:
+                        maxes.append(x)
+                    if isinstance(x, ast.Name) and x.id not in done:
+                        done.add(x.id)
+                        todo += defs.get(x.id, [])
+            txt = ' | '.join(norm(m) for m in maxes)
+            ok = bool(maxes) and all(f'self.{table}' in norm(m) and f'other.{table}' in norm(m) for m in maxes)
+            prev = seen.get(table)
+            seen[table] = (c, (prev[1] if prev else True) and ok, txt or f'no max(...) + 1 reaches `{norm(c.args[1])}`')
+    for table, (c, ok, txt) in sorted(seen.items()):
+        chk.ob(rid, where(repo, fi, c), f'new {table[:-1]} ids are taken above the maximum of both graphs', ok,
                f'`{txt}`', key=f'{rid}|alloc|{table}')
         n += 1
+    if set(seen) != {'nodes', 'edges'}:
+        raise AnalysisError(f'OpGraph.add: the renaming of shared node and edge ids was not found (found {sorted(seen)})')
     # shared ids are renamed before the tables are merged
     upd = [s for s in ast.walk(fi.node) if isinstance(s, ast.Call) and isinstance(s.func, ast.Attribute)
            and s.func.attr == 'update' and norm(s.func.value) in ('self.nodes', 'self.edges')]
@@ -373,20 +431,39 @@ def rule_R5(chk, repo):
     chk.floor(rid, 3, 3)
 
 
-def rule_R6(chk, repo):
+def rule_R6(chk, repo, rid='C16.R6', q='opgraph.OpGraphEdge.add'):
     """OpGraphEdge.add is the sum of two coefficient maps: per incoming pair (i, c) the coefficient c enters the list of
-    the receiving edge exactly once on every path (added to the entry with the same operator id, or appended)"""
-    rid = 'C16.R6'
-    chk.rule(rid, 'edge addition is a sum of coefficient maps: inside OpGraphEdge.add, on every path through one iteration '
-                  'of the loop over the other edge\'s (id, coefficient) pairs the coefficient enters the receiving list '
+    the receiving edge exactly once on every path (added to the entry with the same operator id, or appended).  The
+    constructor (q = OpGraphEdge.__init__) does the same with the pairs it is given."""
+    fi = repo.func(q)
+    what = 'OpGraphEdge.add' if fi.name == 'add' else f'OpGraphEdge.{fi.name}'
+    chk.rule(rid, f'edge addition is a sum of coefficient maps: inside {what}, on every path through one iteration '
+                  'of the loop over the incoming (id, coefficient) pairs the coefficient enters the receiving list '
                   'exactly once (path-partitioned counting through the search loop, its break and its else clause); a match '
                   'removes the old entry before the sum is re-inserted; the matching test compares operator ids')
-    fi = repo.func('opgraph.OpGraphEdge.add')
     other = fi.params[1]
-    loops = [s for s in fi.node.body if isinstance(s, ast.For) and norm(s.iter) == f'{other}.opics']
+    srcs = (f'{other}.opics',) if fi.name == 'add' else tuple(p for p in fi.params if 'opic' in p) or (fi.params[-1],)
+    loops = [s for s in fi.node.body if isinstance(s, ast.For) and norm(s.iter) in srcs]
     if len(loops) != 1 or not (isinstance(loops[0].target, ast.Tuple) and len(loops[0].target.elts) == 2 and
                                all(isinstance(x, ast.Name) for x in loops[0].target.elts)):
-        raise AnalysisError('OpGraphEdge.add: loop `for i, c in other.opics` not found')
+        # a read-modify-write of the accumulator through a comprehension: `acc.update([(i, acc.get(i, 0) + c) for i, c in
+        # pairs])` evaluates every lookup before the first update - a repeated id keeps only its last coefficient
+        for c in ast.walk(fi.node):
+            if isinstance(c, ast.Call) and isinstance(c.func, ast.Attribute) and c.func.attr == 'update' and c.args and \
+                    isinstance(c.func.value, ast.Name):
+                acc = c.func.value.id
+                for comp in ast.walk(c.args[0]):
+                    if isinstance(comp, (ast.ListComp, ast.GeneratorExp, ast.DictComp, ast.SetComp)) and \
+                            any(norm(g.iter) in srcs for g in comp.generators) and \
+                            any(isinstance(n_, ast.Name) and n_.id == acc and isinstance(n_.ctx, ast.Load)
+                                for part in ([comp.elt] if not isinstance(comp, ast.DictComp) else [comp.key, comp.value])
+                                for n_ in ast.walk(part)):
+                        chk.ob(rid, where(repo, fi, c), f'{what}: the incoming pairs are accumulated one at a time (each lookup '
+                               f'sees the updates made for the pairs before it)', False,
+                               f'`{norm(c)[:90]}`: every `{acc}` lookup is evaluated before the first update; a repeated '
+                               f'operator id keeps only its last coefficient', key=f'{rid}|{q}|stale-read')
+                        return 1
+        raise AnalysisError(f'{what}: loop `for i, c in {srcs[0]}` not found')
     loop = loops[0]
     oid, coeff = (x.id for x in loop.target.elts)
 
@@ -402,13 +479,13 @@ def rule_R6(chk, repo):
     body.node.end_lineno = loop.end_lineno
     results, nraise = ts.check_exactly_once(body, is_sink)
     if not results:
-        raise AnalysisError('OpGraphEdge.add: no path through the loop body')
+        raise AnalysisError(f'{what}: no path through the loop body')
     n = 0
     for r in results:
-        chk.ob(rid, where(repo, fi, loop), f'OpGraphEdge.add: path ending at line {r["line"]} under {r["facts"] or "no facts"} '
+        chk.ob(rid, where(repo, fi, loop), f'{what}: path ending at line {r["line"]} under {r["facts"] or "no facts"} '
                f'inserts the incoming coefficient exactly once', r['lo'] == 1 and r['hi'] == 1,
                f'between {r["lo"]} and {r["hi"]}{"+" if r["hi"] >= 2 else ""} insertions (sites {r["sites"]})',
-               key=f'{rid}|path|{r["exit"]}|{"&".join(r["facts"])}|{n}')
+               key=f'{rid}|{fi.name}|path|{r["exit"]}|{"&".join(r["facts"])}|{n}')
         n += 1
     # a match removes the old entry and re-inserts the sum
     pops = [c for c in ast.walk(loop) if isinstance(c, ast.Call) and isinstance(c.func, ast.Attribute) and
@@ -424,8 +501,8 @@ def rule_R6(chk, repo):
                     return (id(t), arm)
         return None
     okm = len(pops) == 1 and len(sums) == 1 and arm_of(pops[0]) is not None and arm_of(pops[0]) == arm_of(sums[0])
-    chk.ob(rid, where(repo, fi, loop), 'OpGraphEdge.add: on a match the old entry is removed and the sum of both coefficients '
-           're-inserted (in the same branch)', okm, f'{len(pops)} pop(s), {len(sums)} summed insertion(s)', key=f'{rid}|match')
+    chk.ob(rid, where(repo, fi, loop), f'{what}: on a match the old entry is removed and the sum of both coefficients '
+           're-inserted (in the same branch)', okm, f'{len(pops)} pop(s), {len(sums)} summed insertion(s)', key=f'{rid}|{fi.name}|match')
     if tests:
         # the comparison `<stored entry>[0] == <incoming id>` - in the loop itself or in a search helper it calls
         def id_compare(root, idname):
@@ -444,8 +521,8 @@ def rule_R6(chk, repo):
                         for k_, a_ in enumerate(c.args):
                             if isinstance(a_, ast.Name) and a_.id == oid and k_ < len(r_[1].params):
                                 found = found or id_compare(r_[1].node, r_[1].params[k_])
-        chk.ob(rid, where(repo, fi, tests[0]), f'OpGraphEdge.add: the match compares the stored operator id with `{oid}`',
-               found is not None, norm(tests[0].test), key=f'{rid}|test')
+        chk.ob(rid, where(repo, fi, tests[0]), f'{what}: the match compares the stored operator id with `{oid}`',
+               found is not None, norm(tests[0].test), key=f'{rid}|{fi.name}|test')
         n += 1
     return n + 1
 
@@ -458,6 +535,8 @@ def run(chk, repo, tier):
     rule_R3(chk, repo, eng)
     rule_R4(chk, repo, eng)
     rule_R6(chk, repo)
+    from . import support
+    support.graph_table_rules(chk, repo, 'C16.R7', ('OpGraph',))
     for a in sorted(eng.assumed):
         chk.assume(a)
     chk.undecided += ['denotational equality of the graph before and after a rewrite',
